@@ -6,6 +6,7 @@
 From Coq Require Import String.
 From NC Require Import Model.Base Model.Lit Model.Caps Model.Writer Model.Negotiate.
 From NC Require Import Spec.CapsSpec Proofs.NegotiateProofs.
+From NC Require Import Model.HelloWait Spec.HelloWaitSpec Proofs.HelloWaitProofs.
 
 (* In every run of the exchange — any readiness pattern, any arrival order of the server hello, any
    number of server messages, timeouts, worker death — the first frame written is the client
@@ -257,3 +258,68 @@ Example C05_sched_ex_two_hellos_torn :
 Proof. eexists. vm_compute. repeat split; reflexivity. Qed.
 Example C05_sched_ex_good : fgood (FWDisp (HTree ex_server_hello)).
 Proof. exists ex_server_hello. eexists. eexists. split; [reflexivity|]. vm_compute. reflexivity. Qed.
+
+(* ================= the deadline of the wait for the server hello (Model/HelloWait.v) =================
+   "if no hello arrives within the timeout ... connect fails instead of hanging": C05_no_hang / C05_sched_main_never_blocked
+   say that the deadline label ends the wait; these theorems say WHICH deadline init_event.wait gets, for every entry point
+   (connect_ssh, connect, connect_tls, connect_uds) and every way the caller can pass a timeout. *)
+
+(* A timeout the caller stated — positionally or as keyword, with or without manager_params — is the deadline. *)
+Theorem C05_wait_requested : forall e a t,
+  wf a -> requested a = Some t -> hello_wait e a = Bounded t.
+Proof. exact c05_wait_requested. Qed.
+Print Assumptions C05_wait_requested.
+
+(* When the caller stated none (nothing, timeout=None, manager_params only) the documented default applies. *)
+Theorem C05_wait_default : forall e a,
+  wf a -> requested a = None -> hello_wait e a = Bounded (default_wait e a).
+Proof. exact c05_wait_default. Qed.
+Print Assumptions C05_wait_default.
+
+(* Hence the wait is never Event.wait(None). *)
+Theorem C05_wait_bounded : forall e a, wf a -> exists t, hello_wait e a = Bounded t.
+Proof. exact c05_wait_bounded. Qed.
+Print Assumptions C05_wait_bounded.
+
+(* manager_params['timeout'] is the Manager's RPC timeout: it never changes the connect deadline, and the Manager gets
+   it, else the connect keyword, else 30 s. *)
+Theorem C05_wait_ignores_manager_params : forall e a m, hello_wait e (with_mp a m) = hello_wait e a.
+Proof. exact c05_wait_ignores_manager_params. Qed.
+Print Assumptions C05_wait_ignores_manager_params.
+Theorem C05_manager_timeout : forall a,
+  manager_timeout a = match a_mp a with
+                      | Some m => m
+                      | None => match a_kw a with Some v => v | None => PNum default_manager_ms end
+                      end.
+Proof. exact c05_manager_timeout. Qed.
+Print Assumptions C05_manager_timeout.
+
+(* Before the two repairs the statements are false: connect_tls(timeout=2 s) waited 60 s, connect_ssh() without a
+   timeout waited for ever. *)
+Theorem C05_wait_unfixed_refuted :
+  hello_wait_unfixed EConnectTls {| a_pos := None; a_kw := Some (PNum 2000); a_mp := None; a_cfg := None |} = Bounded 60000
+  /\ hello_wait_unfixed EConnectUds {| a_pos := Some (PNum 300000); a_kw := None; a_mp := None; a_cfg := None |} = Bounded 60000
+  /\ hello_wait_unfixed EConnectSsh {| a_pos := None; a_kw := None; a_mp := Some (PNum 5000); a_cfg := None |} = Unbounded.
+Proof. vm_compute. repeat split; reflexivity. Qed.
+Print Assumptions C05_wait_unfixed_refuted.
+
+(* A helper that removes 'timeout' from kwds while copying it into manager_params loses the caller's timeout on SSH. *)
+Theorem C05_wait_pop_loses : forall t,
+  let a := {| a_pos := None; a_kw := Some (PNum t); a_mp := None; a_cfg := None |} in
+  hello_wait_gen true true true EConnectSsh a = Bounded default_hello_ms /\
+  hello_wait_gen true true false EConnectSsh a = Unbounded /\
+  hello_wait EConnectSsh a = Bounded t.
+Proof. exact c05_wait_pop_loses. Qed.
+Print Assumptions C05_wait_pop_loses.
+
+(* non-vacuity: each way on a concrete call *)
+Example C05_wait_ex :
+  hello_wait EConnectSsh {| a_pos := None; a_kw := Some (PNum 2000); a_mp := Some (PNum 10000); a_cfg := Some 7000 |} = Bounded 2000
+  /\ hello_wait EConnect {| a_pos := None; a_kw := None; a_mp := Some (PNum 10000); a_cfg := Some 7000 |} = Bounded 7000
+  /\ hello_wait EConnectSsh {| a_pos := None; a_kw := Some PNone; a_mp := None; a_cfg := None |} = Bounded 60000
+  /\ hello_wait EConnectTls {| a_pos := Some (PNum 500); a_kw := None; a_mp := Some (PNum 10000); a_cfg := None |} = Bounded 500
+  /\ hello_wait EConnectTls {| a_pos := None; a_kw := None; a_mp := None; a_cfg := None |} = Bounded 120000
+  /\ hello_wait EConnectUds {| a_pos := None; a_kw := Some PNone; a_mp := None; a_cfg := None |} = Bounded 60000
+  /\ manager_timeout {| a_pos := None; a_kw := Some (PNum 2000); a_mp := None; a_cfg := None |} = PNum 2000
+  /\ manager_timeout {| a_pos := Some (PNum 2000); a_kw := None; a_mp := None; a_cfg := None |} = PNum 30000.
+Proof. vm_compute. repeat split; reflexivity. Qed.
